@@ -100,8 +100,11 @@ func (mgr *bindingManager) assignChannelNumber() uint16 {
 // variable for another peer, which must not change the peer of a binding or
 // a permission.
 func cloneAddr(addr net.Addr) net.Addr {
-	if udp, ok := addr.(*net.UDPAddr); ok {
-		return &net.UDPAddr{IP: append(net.IP(nil), udp.IP...), Port: udp.Port, Zone: udp.Zone}
+	switch a := addr.(type) {
+	case *net.UDPAddr:
+		return &net.UDPAddr{IP: append(net.IP(nil), a.IP...), Port: a.Port, Zone: a.Zone}
+	case *net.TCPAddr:
+		return &net.TCPAddr{IP: append(net.IP(nil), a.IP...), Port: a.Port, Zone: a.Zone}
 	}
 
 	return addr
